@@ -58,7 +58,8 @@ def plan(tier):
             ('threaded_sweep', len(TBASES) * TSLOT * 2),
             ('threaded_random', 300 if tier == 'quick' else 30000),
             ('pair', 800 if tier == 'quick' else 30000),
-            ('two_sessions', 200 if tier == 'quick' else 10000)]
+            ('two_sessions', 200 if tier == 'quick' else 10000),
+            ('many', 40 if tier == 'quick' else 1500)]
 
 
 def _ping(rng):
@@ -158,7 +159,8 @@ def make_case(family, i, rng, tier):
         return {'pair': cs,
                 'order': [rng.randrange(2) for _ in range(n)] + [0, 1]}
     items = []
-    for _ in range(rng.choice([1, 2, 4, 8, 14])):
+    for _ in range(rng.choice([1, 2, 4, 8, 14]) if family != 'many' else
+                   rng.choice([260, 300, 520, 1030])):
         r = rng.random()
         if r < 0.5:
             items.append(_ping(rng))
@@ -177,6 +179,10 @@ def make_case(family, i, rng, tier):
         case['sclose'] = {'code': 1000, 'reason': u'done'}
     mode = rng.choice(['plain', 'plain', 'app_close', 'fault', 'bad_tail',
                        'bad_close'])
+    if family == 'many':
+        # a long-lived connection: hundreds of Pings, each answered
+        mode = 'plain'
+        case['react'] = False
     case['mode'] = mode
     enc = ST.encode_items(items)
     if mode == 'app_close' and enc.expected:
